@@ -10,7 +10,7 @@ PID=$1; SEED=$(realpath "$2"); TIER=${3:-quick}
 WT=$(mktemp -d /tmp/seedeval-XXXXXX)
 rmdir "$WT"
 git -C /repo worktree add -q "$WT" HEAD || exit 2
-cleanup() { git -C /repo worktree remove --force "$WT" 2>/dev/null; rm -rf "$WT"; }
+cleanup() { git -C /repo worktree remove --force "$WT" 2>/dev/null; rm -rf "$WT" "$WT".*.log; }
 trap cleanup EXIT
 cd "$WT" || exit 2
 PLACE=$(python3 -c "import json,sys,re;print(re.split(r'[\s(,;]', json.load(open('$SEED/meta.json')).get('demo_placement','').strip())[0])")
@@ -19,20 +19,20 @@ echo "seed: $SEED  placement: $PLACE"
 if [ "${SKIP_DEMO:-0}" != 1 ] && [ -n "$PLACE" ] && [ -f "$SEED/demo_test.go.txt" ]; then
   mkdir -p "$(dirname "$PLACE")"; cp "$SEED/demo_test.go.txt" "$PLACE"
   DCMD=$(echo "$DCMD" | sed -E "s#/tmp/seed-[A-Za-z0-9]+#$WT#g")
-  ( eval "$DCMD" ) > /tmp/seedeval-demo-clean.log 2>&1; echo "demo on clean tree: exit $?"
+  ( eval "$DCMD" ) > $WT.demo-clean.log 2>&1; echo "demo on clean tree: exit $?"
 fi
 git apply "$SEED/patch.diff" || { echo "PATCH DOES NOT APPLY"; exit 2; }
 go build ./... || { echo "BUILD FAILS"; exit 2; }
 if [ "${SKIP_DEMO:-0}" != 1 ] && [ -n "$PLACE" ] && [ -f "$PLACE" ]; then
-  ( eval "$DCMD" ) > /tmp/seedeval-demo-mut.log 2>&1; echo "demo with change: exit $?"
+  ( eval "$DCMD" ) > $WT.demo-mut.log 2>&1; echo "demo with change: exit $?"
   rm -f "$PLACE"
 fi
 if [ "${SKIP_SUITE:-0}" != 1 ]; then
-  go test -mod=mod -vet=off -count=1 ./... 2>&1 | grep -E "^(FAIL|---)" | grep -v "wire/net/libp2p" | grep -v "TestBus" | grep -v "^FAIL$" | grep -v "wire/net/simple" | head -5 > /tmp/seedeval-suite.log
-  if [ -s /tmp/seedeval-suite.log ]; then echo "existing suite with change: FAILS:"; cat /tmp/seedeval-suite.log; else echo "existing suite with change: passes (libp2p excluded)"; fi
+  go test -mod=mod -vet=off -count=1 ./... 2>&1 | grep -E "^(FAIL|---)" | grep -v "wire/net/libp2p" | grep -v "TestBus" | grep -v "^FAIL$" | grep -v "wire/net/simple" | head -5 > $WT.suite.log
+  if [ -s $WT.suite.log ]; then echo "existing suite with change: FAILS:"; cat $WT.suite.log; else echo "existing suite with change: passes (libp2p excluded)"; fi
 fi
-cd /verif && VERIF_REPO="$WT" ./check "$PID" "$TIER" > /tmp/seedeval-check.log 2>&1; RC=$?
-grep -E "^VIOLATION|sig=|KNOWN|INCONCLUSIVE|cases," /tmp/seedeval-check.log | cut -c1-300 | head -8
+cd /verif && VERIF_REPO="$WT" ./check "$PID" "$TIER" > $WT.check.log 2>&1; RC=$?
+grep -E "^VIOLATION|sig=|KNOWN|INCONCLUSIVE|cases," $WT.check.log | cut -c1-300 | head -8
 echo "check $PID $TIER against the change: exit $RC"
 rm -rf /verif/replays/$PID
 [ $RC = 1 ] && exit 0 || exit 1
